@@ -43,10 +43,10 @@ theorem cascade_complete (st : St) (seed : List Nat) (j : Nat) (hj : j < st.line
     rw [this] at hdep; cases hdep
 
 /-- the lines that remain are exactly the lines whose index was not removed … -/
-theorem rm_lines (st : St) (seed : List Nat) (q' : Rec) :
-    q' ∈ (rmIdx st seed).lines ↔ ∃ q j, j < st.lines.length ∧ st.lines[j]? = some q ∧ j ∉ cascade st seed ∧
+theorem rmCore_lines (st : St) (seed : List Nat) (q' : Rec) :
+    q' ∈ (rmCore st seed).lines ↔ ∃ q j, j < st.lines.length ∧ st.lines[j]? = some q ∧ j ∉ cascade st seed ∧
       q' = dropItems ((cascade st seed).filterMap (fun j => (st.lines[j]?).bind Rec.name)) q := by
-  unfold rmIdx
+  unfold rmCore
   simp only [List.mem_map]
   constructor
   · rintro ⟨q, hq, rfl⟩
@@ -55,6 +55,39 @@ theorem rm_lines (st : St) (seed : List Nat) (q' : Rec) :
   · rintro ⟨q, j, hj, hqj, hl, rfl⟩
     refine ⟨q, ?_, rfl⟩
     simpa [List.mem_map] using (mem_kept st (cascade st seed) q).mpr ⟨j, hj, hqj, hl⟩
+
+/-- … up to the overlap a placeholder link gives up when no stored path states it any more: every line after the
+    removal is a line that was kept, written as before unless it is a set that mentioned a removed line or such a
+    placeholder link -/
+theorem rm_lines (st : St) (seed : List Nat) (q' : Rec) :
+    q' ∈ (rmIdx st seed).lines ↔ ∃ q i, (rmCore st seed).lines[i]? = some q ∧
+      q' = resetPlaceholder (rmCore st seed).lines (q, i) := by
+  unfold rmIdx resetAll
+  exact C02.mem_zipIdx_recmap _ _ _
+
+/-- where a line that is there after a removal comes from: a line whose index was not removed, with the same record
+    type and identifier; the same text unless it is a set (a mention dropped) or a placeholder link (an overlap given up) -/
+theorem rm_lines_origin (st : St) (seed : List Nat) (q' : Rec) (h : q' ∈ (rmIdx st seed).lines) :
+    ∃ q j, j < st.lines.length ∧ st.lines[j]? = some q ∧ j ∉ cascade st seed ∧ q'.name = q.name ∧ q'.rt = q.rt ∧
+      (q' = dropItems ((cascade st seed).filterMap (fun j => (st.lines[j]?).bind Rec.name)) q ∨ (q.virt = true ∧ q.rt = .L)) := by
+  obtain ⟨q1, i, hq1, rfl⟩ := (rm_lines st seed q').mp h
+  obtain ⟨q, j, hj, hqj, hl, rfl⟩ := (rmCore_lines st seed q1).mp (List.mem_of_getElem? hq1)
+  refine ⟨q, j, hj, hqj, hl, ?_, ?_, ?_⟩
+  · rw [C09.resetPlaceholder_name, dropItems_name]
+  · rw [(C02.resetPlaceholder_refs _ _).1, dropItems_rt]
+  · unfold resetPlaceholder
+    split
+    · rename_i hcond
+      right
+      simp only [Bool.and_eq_true, beq_iff_eq] at hcond
+      have hrt := hcond.1.1.2
+      have hv := hcond.1.1.1
+      rw [dropItems_rt] at hrt
+      refine ⟨?_, hrt⟩
+      have : (dropItems ((cascade st seed).filterMap (fun j => (st.lines[j]?).bind Rec.name)) q) = q := by
+        unfold dropItems; rw [hrt]
+      rw [this] at hv; exact hv
+    · left; rfl
 
 /-- … and each of them is **textually unchanged**, unless it is a set that mentioned a removed line -/
 theorem rm_kept_unchanged (gone : List String) (q : Rec) (h : q.rt ≠ .U) : dropItems gone q = q := by
@@ -82,8 +115,8 @@ theorem rm_name_gone (st st' : St) (n : String) (hn : NoDup st) (he : rm st n = 
     rw [Bool.eq_false_iff]
     intro hcon
     obtain ⟨q', hq', hqn⟩ := (hasName_iff' _ n).mp hcon
-    obtain ⟨q, j, hj, hqj, hl, rfl⟩ := (rm_lines st [i] q').mp hq'
-    rw [dropItems_name] at hqn
+    obtain ⟨q, j, hj, hqj, hl, hname, _, _⟩ := rm_lines_origin st [i] q' hq'
+    rw [hname] at hqn
     -- q (index j, live) and the removed line (index i) carry the same identifier: impossible
     have hq : q ∈ st.lines := List.mem_of_getElem? hqj
     have h1 := lookup_complete st hn q n hq hqn
